@@ -283,9 +283,9 @@ def trak_of(tr):
     kind = tr.get("kind", "avc")
     dur = tr.get("duration", 0)
     minf_items = [vmhd() if HANDLER[kind] == "vide" else smhd() if kind == "aac" else None, dinf(), stbl_of(tr)]
-    return Box("trak", [tkhd(tr["id"], dur, tr.get("w", 0), tr.get("h", 0), 1 if dur >= U32 else 0),
-                        Box("mdia", [mdhd(tr.get("ts", 1000), dur, tr.get("lang", "und"), 1 if dur >= U32 else 0), hdlr(HANDLER[kind]),
-                                     Box("minf", [i for i in minf_items if i is not None])])])
+    return Box("trak", [tkhd(tr["id"], dur, tr.get("w", 0), tr.get("h", 0), 1 if dur >= U32 else 0)] + list(tr.get("trak_before_mdia", ())) +
+               [Box("mdia", [mdhd(tr.get("ts", 1000), dur, tr.get("lang", "und"), 1 if dur >= U32 else 0), hdlr(HANDLER[kind]),
+                             Box("minf", [i for i in minf_items if i is not None])])] + list(tr.get("trak_extra", ())))
 
 
 def sample_bytes(track_id, k, n):
@@ -326,7 +326,7 @@ def make_tables(tr, offsets):
     return tb
 
 
-def build_movie(tracks, layout="moov_first", movie_ts=1000, extra_top=(), udta=None, mvex=None, base=0, large_mdat=False):
+def build_movie(tracks, layout="moov_first", movie_ts=1000, extra_top=(), udta=None, mvex=None, base=0, large_mdat=False, moov_extra=()):
     """returns (Rendered, tracks with 'tables' and 'offsets' filled in, mdat payload offset)"""
     # chunk order: round robin over tracks
     order = []
@@ -366,6 +366,7 @@ def build_movie(tracks, layout="moov_first", movie_ts=1000, extra_top=(), udta=N
             items.append(mvex)
         if udta is not None:
             items.append(udta)
+        items += list(moov_extra)
         return Box("moov", items)
 
     f = ftyp()
@@ -598,14 +599,18 @@ def build_fragmented(tracks, fragments, movie_ts=1000, trex_dur=0, extra_between
         seq += 1
     pieces = runs.pop("_pieces", [])
 
-    def finalize(stream_off):
-        """render the media segment for a stream in which it starts at absolute position stream_off; returns (bytes, fragruns per track)"""
+    def finalize(stream_off, want_fields=False):
+        """render the media segment for a stream in which it starts at absolute position stream_off; returns (bytes, fragruns per track)
+        [, field map of the moof boxes with offsets relative to the media segment]"""
         out = bytearray(media)
         fr = {}
+        fields = []
         for (make, offsets, bases, frag, moof_off, payload_start, starts) in pieces:
             abs_bases = [None if b is None else b[1] + stream_off for b in bases]
             moof = make(offsets, abs_bases)
-            mb = bytes(render([moof]).data)
+            rm = render([moof])
+            mb = bytes(rm.data)
+            fields += [(moof_off + o, w, role, path) for (o, w, role, path) in rm.fields]
             out[moof_off:moof_off + len(mb)] = mb
             for tf, off, ab in zip(frag, offsets, abs_bases):
                 has_trun = tf.get("trun", True)
@@ -617,6 +622,8 @@ def build_fragmented(tracks, fragments, movie_ts=1000, trex_dur=0, extra_between
                     "has_trun": has_trun, "flags": flags, "sample_count": len(tf["sizes"]) if has_trun else 0,
                     "data_offset": off if (has_trun and tf.get("with_offset", True)) else None,
                     "durations": (tf.get("durations") or []) if has_trun else [], "sizes": tf["sizes"] if has_trun else [], "cts": (tf.get("cts") or []) if has_trun else []})
+        if want_fields:
+            return bytes(out), fr, fields
         return bytes(out), fr
     return init, finalize
 
